@@ -531,13 +531,25 @@ def _rm_chunk(chunk):
     return out
 
 
-def run_histories(tables, jobs, nchunks=32):
+def _procs():
+    """pool size: all cores on an idle machine, a few when the machine is already oversubscribed (forking 16
+    workers into a saturated run queue is slower than running serially)"""
+    try:
+        load = os.getloadavg()[0]
+    except OSError:
+        load = 0.0
+    n = os.cpu_count() or 4
+    return n if load < 0.75 * n else 4
+
+
+def run_histories(tables, jobs):
     """jobs: [(table index, reqs, use_platform)] -> results in order"""
     if not jobs:
         return []
-    size = max(1, (len(jobs) + nchunks - 1) // nchunks)
+    procs = _procs()
+    size = max(1, (len(jobs) + 2 * procs - 1) // (2 * procs))
     parts = [(tables, jobs[k:k + size]) for k in range(0, len(jobs), size)]
-    return [r for part in pmap(_rm_chunk, parts) for r in part]
+    return [r for part in pmap(_rm_chunk, parts, procs=procs) for r in part]
 
 
 # ---- vendor platforms -----------------------------------------------------------------------------
@@ -787,10 +799,6 @@ def _require_request(ctx, r, stage):
         raise MachineryError("vacuous model run %s: action Request never taken" % stage)
 
 
-def _hist(calls):
-    return [re.sub(r"^request\((.*)\)$", r"\1", c) for c in calls]
-
-
 def _plain(v):
     if isinstance(v, (frozenset, set)):
         return sorted((_plain(x) for x in v), key=repr)
@@ -822,7 +830,7 @@ class Findings:
             gk = (meta["table"], "", clause, req)
         else:                             # random tables / sampled build histories: one finding per clause (and vendor)
             gk = (meta["driver"], meta.get("vendor", ""), clause, "")
-        hist = _hist(meta["calls"][:step])
+        hist = ["%s#%d" % (x["req"]["name"], x["req"]["number"]) if x["type"] == "request" else "build" for x in steps[:step]]
         cur = self.groups.get(gk)
         cand = (len(hist), hist, verdict, meta, steps, refused, kinds)
         if cur is None:
@@ -866,7 +874,7 @@ class Findings:
                                   "table": meta["_table"], "reqs": meta["_reqs"], "step": step, "clause": clause})
 
 
-def _validate(ctx, tables, traces, stage, count_states=True, batch_size=6000):
+def _validate(ctx, tables, traces, stage, count_states=True, batch_size=6000, show=()):
     """Batch validation by ResMgrTrace (harness.tracecheck.validate, extended: the tables travel with the
     batch, and the REJ tuples carry structured information that TLC pretty-prints over several lines).
     traces: list of (table, steps). Returns verdicts ("ACC", n) / ("REJ", step, clause, info)."""
@@ -878,7 +886,7 @@ def _validate(ctx, tables, traces, stage, count_states=True, batch_size=6000):
             if id(t) not in idx:
                 tabs.append({kk: vv for kk, vv in t.items() if kk != "reqs"})
                 idx[id(t)] = len(tabs)
-            out.append({"table": idx[id(t)], "show": False, "steps": tr})
+            out.append({"table": idx[id(t)], "show": (off + len(out)) in show, "steps": tr})
         path = os.path.join(ctx.tmp, "ResMgrTrace_%s_%d.json" % (re.sub(r"\W", "_", stage), off))
         with open(path, "w") as f:
             json.dump({"tables": tabs, "traces": out}, f)
@@ -890,6 +898,8 @@ def _validate(ctx, tables, traces, stage, count_states=True, batch_size=6000):
         if count_states:
             ctx.cov["trace_states_checked"] = ctx.cov.get("trace_states_checked", 0) + r.distinct
         for txt in r.printed():
+            if re.match(r'^<<\s*"CONSTRAINTS"', txt):      # Constraints(state) as computed by TLC, for the evidence
+                st.setdefault("constraints_printed_by_tlc", []).append(re.sub(r"\s+", " ", txt))
             if not re.match(r'^<<\s*"(ACC|REJ)"', txt):
                 continue
             v = tlaval.parse(txt)
@@ -926,7 +936,7 @@ def covering_walks(g, max_len):
                     seen.add(v)
                     todo.append(v)
         jobs.append(({u: g.out[u] for u in seen}, init, max_len))
-    return [w for ws in pmap(_walks_job, jobs) for w in ws]
+    return [w for ws in pmap(_walks_job, jobs, procs=min(len(jobs), _procs())) for w in ws]
 
 
 def run(ctx):
@@ -1076,13 +1086,13 @@ def run(ctx):
             use_sync = table is bm and rng.random() < 0.4 and not any(q["name"] == "clk" for q in reqs)
             bjobs.append((vendor, table, reqs, rng.getrandbits(32), use_sync))
     btraces, bmetas = [], []
-    for job, (steps, calls, text, msgs) in zip(bjobs, pmap(_build_job, bjobs, chunksize=4)):
+    for job, (steps, calls, text, msgs) in zip(bjobs, pmap(_build_job, bjobs, procs=_procs(), chunksize=8)):
         btraces.append((job[1], steps))
         bmetas.append({"table": job[1]["name"], "vendor": job[0], "driver": "build", "calls": calls, "seed": job[3],
                        "use_sync": job[4], "msgs": msgs, "_table": job[1], "_reqs": job[2], "text": text})
         ctx.case(("build", job[0], job[1]["name"], tuple(calls), job[4]), nontrivial=len(steps[-1]["lines"]) > 1)
     mark("vendor_builds")
-    bverdicts = _validate(ctx, None, btraces, "build")
+    bverdicts = _validate(ctx, None, btraces, "build", show=(0, 3))
     mark("tlc_validate_builds")
     n_lines = n_clk = 0
     for v, m, (table, steps) in zip(bverdicts, bmetas, btraces):
